@@ -1,3 +1,5 @@
+//go:build !noc18
+
 package checks
 
 import (
